@@ -23,6 +23,7 @@ enum Site {
     Y_MUTEX,            // pthread_mutex_lock/unlock
     Y_APP,              // explicit yields placed by scenarios (between operations)
     Y_ALLOC,            // new_LweSample / delete_LweSample etc. seen through the gate path
+    Y_TABLEINIT,        // sin / cos / sincos called by the library: the windows in which FFT tables are being computed
     Y_NSITES
 };
 const char *site_name(int s);
